@@ -25,13 +25,14 @@ MANIFEST = dict(
          "file unchanged (all operations, all contents); retrievals change nothing; a well-formedness invariant of the tables (unique names / ids / "
          "type names, no property without owner and type, no isotherm without material / adsorbate / type, no isotherm property or data row without "
          "isotherm) is preserved by EVERY operation under every fault and over every history (induction), and under it adsorbate / material upload "
-         "(new and overwrite, with and without auto-insert of property types), adsorbate / material deletion and isotherm deletion REFINE the "
+         "(new and overwrite, with and without auto-insert of property types), adsorbate / material deletion, property-type and isotherm-type upload / "
+         "overwrite / deletion, isotherm upload without auto-insert and isotherm deletion REFINE the "
          "dictionary (absent / duplicate / unknown type / null value -> parsing error and nothing changes; otherwise exactly that item is added, "
          "replaced or removed), composed over arbitrary histories of these operations and retrievals (history_refines_partial); outcome and content afterwards depend on the target file only, and by induction "
          "over ARBITRARY histories over several files the final content of a file is what its own operations produce on it alone - for every "
          "operation except isotherm uploads with auto-insert, which read the per-process registries (refuted witnesses: cross-file upload, "
          "numeric-looking text through REAL affinity, iso_type leaking into retrieved isotherms, missing isotherm_properties_type table, list-valued "
-         "material properties). PARTIAL: the refinement tables -> dictionary for property-type uploads / deletions and isotherm uploads is "
+         "material properties). PARTIAL: the refinement tables -> dictionary for isotherm uploads WITH auto-insert (they read the registries) is "
          "not proved; it is evaluated inside Coq (dictionary model vs abstraction of the tables) on every step of every history of the run; the "
          "invariant is decided inside Coq for the content db_create ships. The "
          "hand-written model is tied to the code on every run by executing it inside Coq against the implementation on random histories (outcome, "
@@ -589,7 +590,7 @@ def check_wf(rep, header, names):
         res = vlib.run_coq_cases('c08w', header.replace('Db.DbShow.', 'Db.DbShow Db.DbInv.'), 'fun b : bool => (if b then 1 else 0, 0)',
                                  ['(wfb %s)' % n for n in names], per_file=50, timeout=600)
         bad = [n for n, v in zip(names, res) if v[0] != 1]
-        rep.cov.setdefault('correspondence', {})['initial_contents_well_formed'] = '%d of %d' % (len(names) - len(bad), len(names))
+        rep.cov['initial_contents_well_formed'] = '%d of %d (DbInv.wfb evaluated inside Coq on %s)' % (len(names) - len(bad), len(names), ', '.join(names))
         rep.cov['evaluations'] += len(names)
         for n in bad:
             rep.broken_obligation('hypothesis:wf(%s)' % n, 'the initial table content %s violates the well-formedness invariant of Db/DbInv.v (wfb = false)' % n)
@@ -781,8 +782,8 @@ def run(rep, tier, seed):
     rep.cov['trusted_base'] += ['SQLite / python sqlite3 (constraint enforcement, AUTOINCREMENT, transactions): modelled, compared row by row on every call',
                                 'harness interning of strings and numbers; isotherm construction and iso_id (hash) are oracles']
     rep.assumptions += ['values are interned: numbers by their float value (3 and 3.0 are the same stored value)',
-                        'theorems outcome_depends_on_target_file_only_partial / history_files_independent_partial exclude auto-inserting isotherm uploads (they read the registries)', ('refinement to the dictionary is PROVED for adsorbate / material upload, overwrite and deletion, isotherm deletion and the retrievals (under the invariant wf, '
-                         'proved preserved by every operation and decided by evaluation for the initial content of this run); for property-type operations and isotherm uploads '
+                        'theorems outcome_depends_on_target_file_only_partial / history_files_independent_partial exclude auto-inserting isotherm uploads (they read the registries)', ('refinement to the dictionary is PROVED for adsorbate / material upload, overwrite and deletion, type upload / overwrite / deletion, isotherm upload without auto-insert, isotherm deletion and the retrievals (under the invariant wf, '
+                         'proved preserved by every operation and decided by evaluation for the initial content of this run); for isotherm uploads with auto-insert '
                          'it is checked per step inside Coq at run time'), 'the property names of one upload are distinct (keys of a Python dict)']
 
 
